@@ -6,13 +6,15 @@
 //!  * monitor `WF` on the recorded `MatchResult` (hypothesis of the Coq theorems);
 //!  * emit the correspondence case `root_parse tokens match == real tree` and
 //!    `append`/`wrap` cases on operand pairs taken from the recorded match.
-use std::collections::HashMap;
+use std::collections::{HashMap, HashSet};
 
 use serde_json::{Value, json};
 use sqruff_lib::core::config::FluffConfig;
 use sqruff_lib_core::dialects::syntax::SyntaxKind;
 use sqruff_lib_core::parser::lexer::StringOrTemplate;
+use sqruff_lib_core::parser::context::ParseContext;
 use sqruff_lib_core::parser::match_result::{MatchResult, Matched};
+use sqruff_lib_core::parser::matchable::{Matchable, MatchableTrait, MatchableTraitImpl};
 use sqruff_lib_core::parser::parser::Parser;
 use sqruff_lib_core::parser::segments::base::{ErasedSegment, Tables};
 use sqruff_lib_core::parser::segments::file::verif_hook;
@@ -158,16 +160,270 @@ pub struct Item {
 
 pub struct Ctx {
     cfgs: HashMap<String, FluffConfig>,
+    orcs: HashMap<String, Oracle>,
 }
 impl Ctx {
     pub fn new() -> Ctx {
-        Ctx { cfgs: HashMap::new() }
+        Ctx { cfgs: HashMap::new(), orcs: HashMap::new() }
     }
     pub fn cfg(&mut self, dialect: &str) -> &FluffConfig {
         self.cfgs
             .entry(dialect.to_string())
             .or_insert_with(|| FluffConfig::from_source(&format!("[sqruff]\ndialect = {}\n", dialect), None))
     }
+    /// the dialect's configuration together with its "can any terminal match this token" oracle
+    pub fn parts(&mut self, dialect: &str) -> (&FluffConfig, &mut Oracle) {
+        self.cfg(dialect);
+        let cfg = &self.cfgs[dialect];
+        let orc = self.orcs.entry(dialect.to_string()).or_insert_with(|| Oracle::new(cfg));
+        (cfg, orc)
+    }
+}
+
+// ---------------------------------------------------------------- "text the grammar cannot match"
+/// Second sentence of C02, observed directly: a code token that *no terminal parser anywhere in the
+/// dialect's grammar library* accepts (keyword / string / multi-string / typed / regex parsers, each asked
+/// through its real `match_segments` on the one-token stream) cannot be matched by the grammar, so in a
+/// returned tree it has to sit under an `unparsable` node (or the parse must be reported as an error).
+/// The only grammar element that takes a token without looking at it is `Anything`: node kinds whose own
+/// grammar (up to the next NodeMatcher) contains `Anything` are exempt.
+pub struct Oracle {
+    /// string / multi-string / regex parsers (look at the raw) and typed parsers (look at the token's types)
+    raw_terminals: Vec<(Matchable, SyntaxKind)>,
+    typed_terminals: Vec<(Matchable, SyntaxKind)>,
+    /// a NodeMatcher also accepts, unchanged, a token that already has its node kind
+    node_kinds: HashSet<SyntaxKind>,
+    anything_kinds: HashSet<SyntaxKind>,
+    /// per node kind: the `Bracketed` grammars in `ParseMode::Strict` of its own grammar (up to the next NodeMatcher)
+    strict_brackets: HashMap<SyntaxKind, Vec<Matchable>>,
+    typed_cache: HashMap<SyntaxKind, HashSet<SyntaxKind>>,
+    raw_cache: HashMap<(SyntaxKind, String), HashSet<SyntaxKind>>,
+    /// (raw, separator to put after it) of probe strings that lex to one code token no terminal accepts
+    pub junk: Vec<(String, &'static str)>,
+}
+
+const CANDIDATES: &[&str] = &[
+    "\u{a7}", "\u{a4}", "\u{1}", "\u{7f}", "\u{20ac}", "#", "?", "??", "$", "$$", "@", "@@", "`", "\\", "!", "!!", "~", "^", "|", "||", "&", "&&", "%", ":", "::", ":=", "=>", "->", "->>",
+    "<=>", "<>", "!=", "==", "<<", ">>", "{", "}", "\u{ab}", "\u{2026}", "\u{00d7}",
+];
+
+fn children_of(m: &Matchable, lib: &HashMap<String, Matchable>, follow_refs: bool) -> (Vec<Matchable>, Vec<Matchable>) {
+    // (elements, terminator-like)
+    let any = |a: &sqruff_lib_core::parser::grammar::anyof::AnyNumberOf| {
+        let mut t: Vec<Matchable> = a.terminators.clone();
+        t.extend(a.exclude.iter().cloned());
+        (a.verif_elements().to_vec(), t)
+    };
+    match m.verif_inner() {
+        MatchableTraitImpl::Ref(r) => {
+            let mut t = r.verif_terminators().to_vec();
+            t.extend(r.verif_exclude().cloned());
+            let e = if follow_refs { lib.get(r.verif_reference()).cloned().into_iter().collect() } else { vec![] };
+            (e, t)
+        }
+        MatchableTraitImpl::Sequence(s) => (s.verif_elements().to_vec(), s.terminators.clone()),
+        MatchableTraitImpl::Bracketed(b) => (b.this.verif_elements().to_vec(), b.this.terminators.clone()),
+        MatchableTraitImpl::AnyNumberOf(a) => any(a),
+        MatchableTraitImpl::Delimited(d) => {
+            let (e, mut t) = any(&d.base);
+            t.push(d.verif_delimiter().clone());
+            (e, t)
+        }
+        MatchableTraitImpl::NodeMatcher(n) => (vec![n.verif_match_grammar().clone()], vec![]),
+        MatchableTraitImpl::Anything(a) => (vec![], a.verif_terminators().to_vec()),
+        _ => (vec![], vec![]),
+    }
+}
+
+impl Oracle {
+    pub fn new(cfg: &FluffConfig) -> Oracle {
+        let d = cfg.get_dialect();
+        let lib: HashMap<String, Matchable> = d.verif_library().filter_map(|(n, m)| m.map(|m| (n.to_string(), m.clone()))).collect();
+        // every matchable of the library (refs are library entries themselves, so they need not be followed)
+        let mut seen: HashSet<usize> = HashSet::new();
+        let mut all: Vec<Matchable> = vec![];
+        let mut work: Vec<Matchable> = lib.values().cloned().collect();
+        while let Some(m) = work.pop() {
+            if !seen.insert(m.verif_ptr()) {
+                continue;
+            }
+            let (e, t) = children_of(&m, &lib, false);
+            work.extend(e);
+            work.extend(t);
+            all.push(m);
+        }
+        let mut raw_terminals = vec![];
+        let mut typed_terminals = vec![];
+        let mut node_kinds = HashSet::new();
+        for m in &all {
+            match m.verif_inner() {
+                MatchableTraitImpl::StringParser(p) => raw_terminals.push((m.clone(), p.verif_kind())),
+                MatchableTraitImpl::MultiStringParser(p) => raw_terminals.push((m.clone(), p.verif_kind())),
+                MatchableTraitImpl::RegexParser(p) => raw_terminals.push((m.clone(), p.verif_kind())),
+                MatchableTraitImpl::TypedParser(p) => typed_terminals.push((m.clone(), p.verif_kind())),
+                MatchableTraitImpl::NodeMatcher(n) => {
+                    node_kinds.insert(n.get_type());
+                }
+                _ => {}
+            }
+        }
+        // node kinds whose grammar reaches `Anything` before the next NodeMatcher
+        let mut anything_kinds = HashSet::new();
+        let mut strict_brackets: HashMap<SyntaxKind, Vec<Matchable>> = HashMap::new();
+        for m in &all {
+            if let MatchableTraitImpl::NodeMatcher(n) = m.verif_inner() {
+                let mut seen2: HashSet<usize> = HashSet::new();
+                let mut work2 = vec![n.verif_match_grammar().clone()];
+                while let Some(x) = work2.pop() {
+                    if !seen2.insert(x.verif_ptr()) {
+                        continue;
+                    }
+                    match x.verif_inner() {
+                        MatchableTraitImpl::Anything(_) => {
+                            anything_kinds.insert(n.get_type());
+                        }
+                        MatchableTraitImpl::NodeMatcher(_) => {}
+                        _ => {
+                            if let MatchableTraitImpl::Bracketed(b) = x.verif_inner() {
+                                if b.this.parse_mode == sqruff_lib_core::parser::types::ParseMode::Strict {
+                                    strict_brackets.entry(n.get_type()).or_default().push(x.clone());
+                                }
+                            }
+                            work2.extend(children_of(&x, &lib, true).0)
+                        }
+                    }
+                }
+            }
+        }
+        let mut o = Oracle { raw_terminals, typed_terminals, node_kinds, anything_kinds, strict_brackets, typed_cache: HashMap::new(), raw_cache: HashMap::new(), junk: vec![] };
+        // which probes lex to exactly one code token that nothing accepts (and how to separate them from
+        // what follows: the last-resort lexer swallows the rest of the line)
+        let tables = Tables::default();
+        for c in CANDIDATES {
+            for sep in [" ", "\n"] {
+                let probe = format!("{}{}1", c, sep);
+                if let Ok((t, _)) = lex(cfg, &tables, &probe) {
+                    if t.len() >= 3 && t[0].raw().as_str() == *c && t[0].is_code() && t[2].raw().as_str() == "1" && o.accepted_kinds(cfg, &t[0]).is_empty() {
+                        o.junk.push((c.to_string(), sep));
+                        break;
+                    }
+                }
+            }
+        }
+        o
+    }
+    pub fn n_terminals(&self) -> usize {
+        self.raw_terminals.len() + self.typed_terminals.len()
+    }
+
+    fn ask(cfg: &FluffConfig, ms: &[(Matchable, SyntaxKind)], tok: &ErasedSegment) -> HashSet<SyntaxKind> {
+        let parser: Parser = cfg.into();
+        let segs = [tok.clone()];
+        let mut kinds = HashSet::new();
+        for (m, k) in ms {
+            let mut cx = ParseContext::new(cfg.get_dialect(), parser.indentation_config());
+            match catch(|| m.match_segments(&segs, 0, &mut cx)) {
+                Ok(Ok(r)) if !r.has_match() => {}
+                // a match (or an error / a panic: not provably a refusal)
+                _ => {
+                    kinds.insert(*k);
+                }
+            }
+        }
+        kinds
+    }
+
+    /// the kinds under which some terminal parser of the dialect accepts the lexer token `tok`
+    /// (each terminal is asked through its real `match_segments` on the one-token stream)
+    pub fn accepted_kinds(&mut self, cfg: &FluffConfig, tok: &ErasedSegment) -> HashSet<SyntaxKind> {
+        let l = tok.get_type();
+        if !self.typed_cache.contains_key(&l) {
+            let mut ks = Self::ask(cfg, &self.typed_terminals, tok);
+            if self.node_kinds.contains(&l) {
+                ks.insert(l);
+            }
+            self.typed_cache.insert(l, ks);
+        }
+        let key = (l, tok.raw().to_string());
+        if !self.raw_cache.contains_key(&key) {
+            let ks = Self::ask(cfg, &self.raw_terminals, tok);
+            self.raw_cache.insert(key.clone(), ks);
+        }
+        self.typed_cache[&l].union(&self.raw_cache[&key]).copied().collect()
+    }
+}
+
+/// ids of the first and last child of the `bracketed` node that has the leaf `id` as a direct child
+fn enclosing_bracket(t: &ErasedSegment, id: u32) -> Option<(u32, u32)> {
+    for c in t.segments() {
+        if c.segments().is_empty() {
+            if c.id() == id && t.get_type() == SyntaxKind::Bracketed {
+                return Some((t.segments().first()?.id(), t.segments().last()?.id()));
+            }
+        } else if let Some(r) = enclosing_bracket(c, id) {
+            return Some(r);
+        }
+    }
+    None
+}
+
+/// Diagnosis of finding F2 (notes/C02.md; repaired in the repo, this only annotates the message should it come
+/// back): the content `Sequence` of a Strict `Bracketed` of the node `owner` runs out of
+/// tokens before a required element and reports its failure as an empty match *at the end index*, which
+/// `Bracketed::match_segments` (`content_match.span.end != end_idx`) takes for a complete match. Re-run the real
+/// content grammar on the real tokens of the bracket that holds `tok` and look for exactly that signature.
+fn strict_bracket_failure_taken_as_complete(cfg: &FluffConfig, orc: &Oracle, tokens: &[ErasedSegment], tree: &ErasedSegment, tok: &ErasedSegment, owner: Option<SyntaxKind>) -> bool {
+    let Some(owner) = owner else { return false };
+    let Some(brs) = orc.strict_brackets.get(&owner) else { return false };
+    let Some((first, last)) = enclosing_bracket(tree, tok.id()) else { return false };
+    let pos = |id: u32| tokens.iter().position(|t| t.id() == id);
+    let (Some(s), Some(e)) = (pos(first), pos(last)) else { return false };
+    // as in Bracketed::match_segments: skip to code after the opening bracket, back to code before the closing one
+    let mut idx = s + 1;
+    while idx < tokens.len() && !tokens[idx].is_code() {
+        idx += 1;
+    }
+    let mut end_idx = e;
+    while end_idx > idx && !tokens[end_idx - 1].is_code() {
+        end_idx -= 1;
+    }
+    if idx >= end_idx {
+        return false;
+    }
+    let parser: Parser = cfg.into();
+    brs.iter().any(|b| {
+        let MatchableTraitImpl::Bracketed(b) = b.verif_inner() else { return false };
+        let mut cx = ParseContext::new(cfg.get_dialect(), parser.indentation_config());
+        match catch(|| b.this.match_segments(&tokens[..end_idx], idx as u32, &mut cx)) {
+            Ok(Ok(m)) => !m.has_match() && m.span.start == end_idx as u32,
+            _ => false,
+        }
+    })
+}
+
+fn unparsable_parents(t: &ErasedSegment, out: &mut Vec<SyntaxKind>) {
+    for c in t.segments() {
+        if c.get_type() == SyntaxKind::Unparsable {
+            out.push(t.get_type());
+        }
+        unparsable_parents(c, out);
+    }
+}
+
+/// leaves of `t` (token ids) that are outside every `unparsable` node, with the kinds on their path
+fn outside_unparsable(t: &ErasedSegment, path: &mut Vec<SyntaxKind>, out: &mut HashMap<u32, (SyntaxKind, Vec<SyntaxKind>)>) {
+    if t.get_type() == SyntaxKind::Unparsable {
+        return;
+    }
+    if t.segments().is_empty() {
+        out.insert(t.id(), (t.get_type(), path.clone()));
+        return;
+    }
+    path.push(t.get_type());
+    for c in t.segments() {
+        outside_unparsable(c, path, out);
+    }
+    path.pop();
 }
 
 pub fn lex(cfg: &FluffConfig, tables: &Tables, sql: &str) -> Result<(Vec<ErasedSegment>, usize), String> {
@@ -354,7 +610,7 @@ pub fn lex_and_parse(cfg: &FluffConfig, tables: &Tables, sql: &str) -> Result<Pa
 
 fn run_one(cx: &mut Ctx, it: &Item, out: &mut Buf) {
     let input = json!({"dialect": it.dialect, "sql": it.sql});
-    let cfg = cx.cfg(&it.dialect);
+    let (cfg, orc) = cx.parts(&it.dialect);
     let tables = Tables::default();
     out.count("inputs", 1);
     let p = match lex_and_parse(cfg, &tables, &it.sql) {
@@ -403,6 +659,19 @@ fn run_one(cx: &mut Ctx, it: &Item, out: &mut Buf) {
             ("parse-error", "(Some PErr)".to_string())
         }
         Ok(Some(tree)) => {
+            if it.cls == "replay" && std::env::var("SQV_C02_DUMP_TREE").is_ok() {
+                fn dump(t: &ErasedSegment, d: usize) {
+                    if t.segments().is_empty() {
+                        eprintln!("{}{:?} {:?}", "  ".repeat(d), t.get_type(), t.raw());
+                    } else {
+                        eprintln!("{}{:?}", "  ".repeat(d), t.get_type());
+                        for c in t.segments() {
+                            dump(c, d + 1);
+                        }
+                    }
+                }
+                dump(tree, 0);
+            }
             let leaves: Vec<ErasedSegment> = tree.get_raw_segments();
             let kept: Vec<&ErasedSegment> = leaves.iter().filter(|l| !(is_ins_meta_kind(l.get_type()) && !tok_ids.contains(&l.id()))).collect();
             let mut why = String::new();
@@ -437,6 +706,51 @@ fn run_one(cx: &mut Ctx, it: &Item, out: &mut Buf) {
                 out.count("trees_with_unparsable", 1);
             }
             out.direct(it.cls, why.is_empty(), &format!("c02-leaves:{}", key_base), &why, input.clone());
+            // ---- second sentence: what the grammar cannot match is under `unparsable` (or an error was returned).
+            // Every terminal parser re-tags the token it accepts (`Matched::Newtype(kind)`), so a code leaf outside
+            // the unparsable nodes that still has its lexer kind must be a token that some terminal accepts under
+            // that very kind; otherwise nothing in the grammar matched it and it was kept silently.
+            {
+                let mut outside = HashMap::new();
+                outside_unparsable(tree, &mut vec![], &mut outside);
+                let mut bad = String::new();
+                let mut bad_key = String::new();
+                let (mut asked, mut exempt) = (0usize, 0usize);
+                for t in tokens.iter().filter(|t| t.is_code() && !t.is_meta()) {
+                    let Some((kind, path)) = outside.get(&t.id()) else { continue };
+                    if *kind != t.get_type() {
+                        continue; // re-tagged by a terminal
+                    }
+                    asked += 1;
+                    if orc.accepted_kinds(cfg, t).contains(kind) {
+                        continue;
+                    }
+                    // nearest ancestor that is a grammar node of its own (brackets are built by `Bracketed`)
+                    let owner = path.iter().rev().find(|k| **k != SyntaxKind::Bracketed).copied();
+                    if owner.map_or(false, |k| orc.anything_kinds.contains(&k)) {
+                        exempt += 1;
+                    } else if bad.is_empty() {
+                        let owner_s = owner.map_or("none".to_string(), |k| format!("{:?}", k).to_lowercase());
+                        let f2 = strict_bracket_failure_taken_as_complete(cfg, orc, tokens, tree, t, owner);
+                        bad_key = format!("c02-unmatched-kept-silently:{}:{}", it.dialect, owner_s);
+                        bad = format!(
+                            "token {:?} (id {}, {:?}) keeps its lexer kind, which none of the {} terminal parsers of the {} grammar gives to it, yet it is outside every unparsable node (path {}) and no parse error is returned{}",
+                            t.raw(), t.id(), t.get_type(), orc.n_terminals(), it.dialect,
+                            path.iter().map(|k| format!("{:?}", k).to_lowercase()).collect::<Vec<_>>().join(">"),
+                            if f2 { format!(" [diagnosed: the Strict content sequence of a bracket of {} fails at the end index and Bracketed takes the empty match for a complete one]", owner_s) } else { String::new() }
+                        );
+                    }
+                }
+                out.count("leaves_with_lexer_kind_checked_against_terminals", asked);
+                out.count("unmatched_tokens_under_anything_exempt", exempt);
+                out.direct(it.cls, bad.is_empty(), &bad_key, &bad, input.clone());
+            }
+            // where the unparsable sections were produced (coverage of the greedy paths of the engine)
+            let mut parents = vec![];
+            unparsable_parents(tree, &mut parents);
+            for k in parents {
+                out.count(&format!("unparsable_under_{}", format!("{:?}", k).to_lowercase()), 1);
+            }
             (if has_unparsable { "tree-unparsable" } else { "tree-clean" }, format!("(Some (POk {}))", g_tree(tree, &tok_ids)))
         }
     };
@@ -479,7 +793,12 @@ fn run_one(cx: &mut Ctx, it: &Item, out: &mut Buf) {
     let grammar_panicked = p.result.is_err() && p.root.is_none() && si != ei;
     let limit = 260;
     // thorough tier: every other input is replayed through Coq (all are observed directly)
-    let sampled = !thorough_tier() || short_hash(&it.sql).as_bytes()[10] % 2 == 0;
+    let sampled = if it.cls.starts_with("gap-junk") {
+        // observed directly on every input; one in 24 (thorough: 120) is also replayed through the Gallina root_parse
+        u64::from_str_radix(&short_hash(&it.sql)[..6], 16).unwrap_or(0) % (if thorough_tier() { 120 } else { 24 }) == 0
+    } else {
+        !thorough_tier() || short_hash(&it.sql).as_bytes()[10] % 2 == 0
+    };
     if tokens.len() <= limit && !grammar_panicked && sampled {
         let args = g_tuple(&[g_list(tokens.iter().map(g_tok)), gm_g]);
         let exp = g_tuple(&[g_bool(wf_ok), exp_g]);
@@ -491,7 +810,7 @@ fn run_one(cx: &mut Ctx, it: &Item, out: &mut Buf) {
     }
 
     // ---- append / wrap on operand pairs taken from the recorded match
-    let do_ops = args_ops_all() || short_hash(&it.sql).as_bytes()[11] % 6 == 0;
+    let do_ops = (args_ops_all() || short_hash(&it.sql).as_bytes()[11] % 6 == 0) && (!it.cls.starts_with("gap-junk") || sampled);
     if let (Some(m), true) = (root_mr, do_ops) {
         let mut ops = vec![];
         collect_ops(m, &mut ops, 2);
@@ -610,6 +929,113 @@ pub fn corpus_items(rng: &mut Rng, thorough: bool, n_cross: usize, n_mut: usize)
     items
 }
 
+/// Small well-formed statements that sit on the greedy paths of the engine (bracketed sections parsed in
+/// `ParseMode::Greedy`, delimited lists, window specs, scripting blocks ...); junk is inserted at *every* gap of
+/// each of them under every dialect (what a dialect cannot parse at all still exercises the root-level paths).
+const GREEDY_BASES: &[&str] = &[
+    "SELECT a FROM t WHERE x IN (1, 2)\n",
+    "INSERT INTO t (a, b) VALUES (1, 2), (3, 4)\n",
+    "SELECT a FROM t JOIN u USING (a, b)\n",
+    "SELECT SUM(a) OVER (PARTITION BY b ORDER BY c) FROM t\n",
+    "SELECT f(a, b), CAST(a AS int) FROM t GROUP BY a ORDER BY b\n",
+    "CREATE TABLE t (a int, b varchar(10))\n",
+    "SELECT ARRAY[1, 2], a[1] FROM t\n",
+    "WITH c AS (SELECT 1) SELECT * FROM c\n",
+    "SELECT CASE WHEN a THEN b ELSE c END FROM t;\nSELECT 2;\n",
+    "IF x THEN SELECT 1; SELECT 2; END IF;\n",
+    "WHILE x DO SELECT 1; SELECT 2; END WHILE;\n",
+    "LOOP SELECT 1; BREAK; END LOOP;\n",
+    "BEGIN SELECT 1; SELECT 2; END;\n",
+    "FOR r IN (SELECT 1) DO SELECT 2; SELECT 3; END FOR;\n",
+    "REPEAT SELECT 1; SELECT 2; UNTIL x END REPEAT;\n",
+    "CREATE PROCEDURE p() BEGIN SELECT 1; SELECT 2; END;\n",
+];
+const PLAIN_JUNK: &[&str] = &[",", "foo", "1", ";", "foo;", ")", "(", "SELECT", "'x'", "END", "."];
+
+/// Class `gap-junk`: one junk token inserted into a well-formed input at a token gap. The junk is either a
+/// token no terminal of the dialect accepts (then the tree must flag it, see `Oracle`) or an ordinary token.
+/// Gaps: right after every opening bracket, right before every closing bracket, right after every `;`
+/// (where the greedy modes of Bracketed / Sequence / AnyNumberOf / Delimited decide what is unparsable), and
+/// random other gaps.
+pub fn gap_items(rng: &mut Rng, thorough: bool) -> Vec<Item> {
+    let mut items = vec![];
+    let mut cx = Ctx::new();
+    let tables = Tables::default();
+    let files = corpus();
+    let mut bases: Vec<(String, String, bool)> = vec![]; // (dialect, text, dense)
+    for d in DIALECTS {
+        for b in GREEDY_BASES {
+            bases.push((d.to_string(), b.to_string(), true));
+        }
+    }
+    for f in files.iter().filter(|f| f.text.len() <= 1500) {
+        bases.push((f.dialect.clone(), f.text.clone(), false));
+    }
+    for (dialect, text, dense) in bases {
+        let (cfg, orc) = cx.parts(&dialect);
+        let toks = match lex(cfg, &tables, &text) {
+            Ok((t, _)) => t,
+            Err(_) => continue,
+        };
+        let raws: Vec<String> = toks.iter().map(|t| t.raw().to_string()).collect();
+        let code: Vec<usize> = (0..toks.len()).filter(|&i| toks[i].is_code() && !toks[i].raw().is_empty()).collect();
+        if code.is_empty() {
+            continue;
+        }
+        // gap g = "insert before token g"
+        let is_open = |i: usize| matches!(raws[i].as_str(), "(" | "[" | "{");
+        let is_close = |i: usize| matches!(raws[i].as_str(), ")" | "]" | "}");
+        let next_code = |i: usize| code.iter().copied().find(|&j| j > i);
+        let mut after_open: Vec<usize> = code.iter().copied().filter(|&i| is_open(i)).filter_map(next_code).collect();
+        let mut before_close: Vec<usize> = code.iter().copied().filter(|&i| is_close(i)).collect();
+        let mut after_semi: Vec<usize> = code.iter().copied().filter(|&i| raws[i] == ";").filter_map(next_code).collect();
+        let mut gaps: Vec<usize> = vec![];
+        if dense || thorough {
+            gaps.extend(code.iter().copied());
+            gaps.push(toks.len());
+        } else {
+            rng.shuffle(&mut after_open);
+            rng.shuffle(&mut before_close);
+            rng.shuffle(&mut after_semi);
+            gaps.extend(after_open.iter().take(5));
+            gaps.extend(before_close.iter().take(2));
+            gaps.extend(after_semi.iter().take(5));
+            for _ in 0..3 {
+                gaps.push(code[rng.below(code.len())]);
+            }
+            gaps.sort();
+            gaps.dedup();
+        }
+        let junk = orc.junk.clone();
+        for (n, g) in gaps.into_iter().enumerate() {
+            let mut js: Vec<(String, &'static str)> = vec![];
+            if !junk.is_empty() {
+                js.push(junk[(n + g) % junk.len()].clone());
+                if dense || thorough {
+                    js.push(junk[0].clone()); // an unlexable character, when the dialect has one
+                }
+            }
+            js.push((PLAIN_JUNK[rng.below(PLAIN_JUNK.len())].to_string(), " "));
+            if dense {
+                js.push((",".to_string(), " "));
+                js.push(("foo".to_string(), " "));
+            }
+            js.dedup();
+            for (j, sep) in js {
+                let mut sql = raws[..g.min(raws.len())].concat();
+                if g >= raws.len() && !sql.ends_with(|c: char| c.is_whitespace()) {
+                    sql.push(' ');
+                }
+                sql.push_str(&j);
+                sql.push_str(sep);
+                sql.push_str(&raws[g.min(raws.len())..].concat());
+                items.push(Item { cls: if dense { "gap-junk-greedy-site" } else { "gap-junk-corpus" }, dialect: dialect.clone(), sql });
+            }
+        }
+    }
+    items
+}
+
 pub fn main(args: &Args) {
     silence_panics();
     let mut out = Out::new(&args.out);
@@ -618,10 +1044,14 @@ pub fn main(args: &Args) {
         let v: Value = serde_json::from_str(&std::fs::read_to_string(path).unwrap()).unwrap();
         let v = if v.get("input").is_some() { v["input"].clone() } else { v };
         vec![Item { cls: "replay", dialect: v["dialect"].as_str().unwrap_or("ansi").to_string(), sql: v["sql"].as_str().unwrap_or("").to_string() }]
-    } else if args.thorough() {
-        corpus_items(&mut rng, true, 0, 30000)
     } else {
-        corpus_items(&mut rng, false, 400, 900)
+        let mut v = if args.thorough() { corpus_items(&mut rng, true, 0, 30000) } else { corpus_items(&mut rng, false, 400, 900) };
+        let only = args.flag("--only-class");
+        v.extend(gap_items(&mut rng, args.thorough()));
+        if let Some(c) = only {
+            v.retain(|i| i.cls.starts_with(c.as_str()));
+        }
+        v
     };
     par_run(&mut out, &items, Ctx::new, run_one);
     out.finish();
